@@ -47,7 +47,7 @@ RULE = (
     "thorough {0,pi/2,0.3,-1,pi}^3) x translations {-2..2}^d*{1,0.5} (quick 3-D: {-2,0,1}^3*{1,0.5}) x points {origin, unit vectors, 3 generic; "
     "as batch and as single points} x point type {plain ndarray, Coordinate}; plus voxel / voxel-centre typed integer points under whole-voxel "
     "translations and quarter turns. Corrections: images 2-D {(3,4),(4,4),(1,5)}, 3-D {(2,3,4),(3,3,3)} x payload {scalar, vector, series} x map "
-    "{identity; every whole-voxel translation in [-n-1,n+1] per axis (quick 3-D: {-n-1,-n,-1,0,1,n,n+1}); quarter turns (+-pi/2, pi; in 3-D about each "
+    "{identity; every whole-voxel translation in [-n-1,n+1] per axis (quick 3-D: {-n-1,-n,-1,0,1,n,n+1} for scalar, {-n-1,-1,0,1,n+1} for vector/series payload); quarter turns (+-pi/2, pi; in 3-D about each "
     "axis and, for several angles at once, every triple with >= 2 non-zero entries) on square / cubic shapes} x parametrisation {coordinate, voxel, "
     "voxel centre} x build {parameters set directly, fitted from point pairs} x API {TransformationCorrection, CoordinateTransformation} x "
     "destination system {same, larger, smaller, finer, coarser}; per object a BFS over the calls {A, A overwrite, B, array of A} on the live "
@@ -128,8 +128,12 @@ def cases(tier):
             for param in PARAMS:
                 for payload in PAYLOADS:
                     # TransformationCorrection, parameters set directly, same systems: the full map space
-                    for k0 in shifts_of(shape[0], tier, dim):
-                        out.append(_cc("TC", "set", "same", shape, payload, param, {"type": "shift", "k0": k0, "range": "full"}, tier))
+                    if dim == 2 or tier == "thorough" or payload == "scalar":
+                        for k0 in shifts_of(shape[0], tier, dim):
+                            out.append(_cc("TC", "set", "same", shape, payload, param, {"type": "shift", "k0": k0, "range": "full"}, tier))
+                    else:  # quick, 3-D, vector / series payload: the edge set {-n-1,-1,0,1,n+1} per axis
+                        for k0 in sorted(set([-shape[0] - 1, -1, 0, 1, shape[0] + 1])):
+                            out.append(_cc("TC", "set", "same", shape, payload, param, {"type": "shift", "k0": k0, "range": "edge"}, tier))
                     if square:
                         out.append(_cc("TC", "set", "same", shape, payload, param, {"type": "turn"}, tier))
                     # CoordinateTransformation (payload matters for the metadata), reduced shift set
